@@ -290,7 +290,27 @@ where
         first_fail: None,
     });
 
+    // Write-ahead record (parser-facing subs only): the case about to run is stored in the worker directory, so that a
+    // worker killed by SIGABRT / SIGSEGV (allocation failure, stack overflow: nothing a panic hook sees) still yields
+    // the input that killed it.
+    let wal: Option<std::fs::File> = if std::env::var("VERIF_WAL").is_ok() {
+        std::fs::OpenOptions::new().create(true).write(true).open(worker_dir().join(format!("wal-{}.bin", sub))).ok()
+    } else {
+        None
+    };
+
     let result = runner.run(&strategy, |case| {
+        if let Some(f) = &wal {
+            use std::os::unix::fs::FileExt;
+            if let Ok(js) = serde_json::to_vec(&case) {
+                if js.len() < (1 << 20) {
+                    let _ = f.write_all_at(&(js.len() as u32).to_le_bytes(), 0);
+                    let _ = f.write_all_at(&js, 4);
+                } else {
+                    let _ = f.write_all_at(&0u32.to_le_bytes(), 0);
+                }
+            }
+        }
         let out = check(&case);
         let mut st = st.borrow_mut();
         let unknown: Vec<&Failure> = out
@@ -528,6 +548,9 @@ pub fn worker_main(def: &PropDef, tier: Tier, sub_name: &str, idx: usize, n: usi
     0
 }
 
+/// Subs that hand attacker-controlled bytes to rdest's parsers in-process: they run with the write-ahead record.
+const WAL_SUBS: &[(&str, &str)] = &[("C05", "documents"), ("C15", "roundtrip"), ("C16", "mutations"), ("C17", "faithful"), ("C17", "totality"), ("C19", "replies"), ("C19", "totality")];
+
 pub fn parent_main(def: &PropDef, tier: Tier) -> i32 {
     install_panic_hook();
     let t0 = Instant::now();
@@ -563,6 +586,7 @@ pub fn parent_main(def: &PropDef, tier: Tier) -> i32 {
                 .arg(n.to_string())
                 .env("VERIF_SEED", seed.to_string())
                 .env("VERIF_RUN_TAG", run_tag())
+                .envs(if WAL_SUBS.contains(&(def.id, sub.name)) { vec![("VERIF_WAL", "1")] } else { vec![] })
                 .stdin(std::process::Stdio::null())
                 .spawn()
                 .expect("spawn worker");
@@ -594,7 +618,36 @@ pub fn parent_main(def: &PropDef, tier: Tier) -> i32 {
                     },
                     Err(e) => inconclusive.push(format!("{} worker {}: no report: {}", sub.name, idx, e)),
                 },
-                Some(st) => inconclusive.push(format!("{} worker {} exited with {}", sub.name, idx, st)),
+                Some(st) => {
+                    use std::os::unix::process::ExitStatusExt;
+                    // killed by a fatal signal of its own making, and the write-ahead record names the case?
+                    let wal_case = match st.signal() {
+                        Some(sig) if [libc::SIGABRT, libc::SIGSEGV, libc::SIGBUS, libc::SIGILL].contains(&sig) => std::fs::read(dir.join(format!("wal-{}.bin", sub.name))).ok().and_then(|b| {
+                            if b.len() < 4 {
+                                return None;
+                            }
+                            let n = u32::from_le_bytes([b[0], b[1], b[2], b[3]]) as usize;
+                            if n == 0 || b.len() < 4 + n {
+                                return None;
+                            }
+                            serde_json::from_slice::<Value>(&b[4..4 + n]).ok().map(|v| (sig, v))
+                        }),
+                        _ => None,
+                    };
+                    match wal_case {
+                        Some((sig, case)) => reports.push(WorkerReport {
+                            sub: sub.name.to_string(),
+                            failure: Some(FailRec {
+                                sub: sub.name.to_string(),
+                                signature: format!("process-killed-by-signal-{}", sig),
+                                detail: format!("the worker process was killed by signal {} (abort / stack overflow / failed allocation) while it ran the recorded case; replaying it kills the replaying process too", sig),
+                                case,
+                            }),
+                            ..Default::default()
+                        }),
+                        None => inconclusive.push(format!("{} worker {} exited with {}", sub.name, idx, st)),
+                    }
+                }
                 None => inconclusive.push(format!("{} worker {} killed by watchdog after {} s", sub.name, idx, budget_s)),
             }
             let _ = std::fs::remove_dir_all(&dir);
